@@ -27,6 +27,11 @@ def floors(tier):
     return {'plans_checked': 1500, 'len:positions': 12, 'len:spellings': 3, 'len:catalog_forms': 5, 'metamorphic_pairs': 500, 'model_queries': 200}
 
 
+def ceilings(tier):
+    # fractions of all evaluations; the unchanged tree stays below about two thirds of each
+    return {'planning_rejections': 0.05, 'internal_error_is_C09': 0.01}
+
+
 def spell(name, style):
     return name if style == 'lower' else name.upper() if style == 'upper' else name.capitalize()
 
